@@ -82,7 +82,9 @@ func (r *ServiceReconciler) reconcileService(ctx context.Context, req ctrl.Reque
 
 	if filterByLoadBalancerClass(service, r.LoadBalancerClass) {
 		level.Debug(r.Logger).Log("controller", "ServiceReconciler", "filtered service", req.NamespacedName)
-		return ctrl.Result{}, nil
+		// The service is not ours (any more): whatever we hold under its name
+		// (it may have been re-created with another class) must be released.
+		service = nil
 	}
 
 	epSlices := []discovery.EndpointSlice{}
